@@ -551,6 +551,7 @@ func (fr *frame) execSelect(x *ssa.Select, g *Term) *Term {
 	ready := make([]*Term, n)
 	vals := make([]Value, n)
 	oks := make([]*Term, n)
+	isTimer := make([]bool, n)
 	type pend struct {
 		ch    *ChanObj
 		i     int
@@ -584,7 +585,8 @@ func (fr *frame) execSelect(x *ssa.Select, g *Term) *Term {
 				}
 				r := Or(got, ch.closed)
 				if ch.timer {
-					r, got = ch.ready, ch.ready
+					isTimer[i] = true
+					r, got = False, True // decided below: a timer fires only when no other case is ready
 				}
 				ready[i] = Or(ready[i], And(al.g, r))
 				val = iteVal(al.g, v, val)
@@ -600,6 +602,22 @@ func (fr *frame) execSelect(x *ssa.Select, g *Term) *Term {
 			}
 		}
 		consume = append(consume, cons)
+	}
+	// timers are the slowest events: a timer case is ready exactly when no other case is
+	// (the simultaneous-expiry race is outside the model; it cannot be replayed natively)
+	{
+		var others []*Term
+		for i := range ready {
+			if !isTimer[i] {
+				others = append(others, ready[i])
+			}
+		}
+		noOther := Not(Or(others...))
+		for i := range ready {
+			if isTimer[i] {
+				ready[i] = noOther
+			}
+		}
 	}
 	// nondeterministic choice among ready cases
 	chosen := make([]*Term, n)
